@@ -11,7 +11,7 @@ TOTAL = {
     '<core::iter::Filter as core::iter::Iterator>::count', '<core::slice::Iter as core::iter::Iterator>::any',
     '<core::slice::Iter as core::iter::Iterator>::next', '<core::slice::Iter as core::iter::Iterator>::position',
     '<core::slice::IterMut as core::iter::Iterator>::find', 'core::iter::Iterator::filter',
-    'core::iter::Iterator::position', 'core::iter::Iterator::skip', 'core::iter::Iterator::take',
+    'core::iter::Iterator::position', 'core::iter::ExactSizeIterator::len', 'core::iter::Iterator::skip', 'core::iter::Iterator::take',
     'core::iter::range::<impl core::iter::Iterator for core::ops::Range>::next',
     'alloc::collections::BinaryHeap::is_empty', 'alloc::collections::BinaryHeap::len',
     'alloc::collections::BinaryHeap::pop', 'alloc::collections::BinaryHeap::retain',
@@ -31,6 +31,7 @@ TOTAL = {
     # Option / Result combinators
     '<core::result::Result as core::ops::FromResidual>::from_residual', '<core::result::Result as core::ops::Try>::branch',
     '<core::option::Option as core::ops::FromResidual>::from_residual', '<core::option::Option as core::ops::Try>::branch',
+    'core::option::Option::cloned', 'core::option::Option::copied',
     'core::option::Option::as_ref', 'core::option::Option::is_none', 'core::option::Option::is_some',
     'core::option::Option::is_some_and', 'core::option::Option::map', 'core::option::Option::or_else',
     'core::option::Option::take', 'core::option::Option::unwrap_or', 'core::option::Option::unwrap_or_else',
